@@ -50,7 +50,10 @@ def refuse(node, why):
 
 # ---- signature table (trusted) -----------------------------------------------------------------------
 PARAM_TYPES = {"population": "refs", "toolbox": "toolbox", "cxpb": "T", "mutpb": "T", "lambda_": "Z"}
-COQ_TYPES = {"ref": "nat", "refs": "(list nat)", "T": "T", "Z": "Z", "bool": "bool", "unit": "unit"}
+COQ_TYPES = {"ref": "nat", "refs": "(list nat)", "T": "T", "Z": "Z", "bool": "bool", "unit": "unit",
+             # the loops dialect: the lazy result of toolbox.map(toolbox.evaluate, l) (= the individuals still to be
+             # evaluated), one fitness value, what stats.compile returns, the Logbook (lives in the state)
+             "lazyfits": "(list nat)", "fitval": "F", "srec": "srec", "logbook": "unit"}
 # function, parameters (exact, in order), result type, the hand model the placeholder of a refused function is
 FUNCS = [
     ("varAnd", ["population", "toolbox", "cxpb", "mutpb"], "refs",
@@ -94,7 +97,7 @@ class FnTr(object):
         return "t%d" % self.counter[0]
 
     def sub(self):
-        t = FnTr(self.fname, self.rettype, self.counter)
+        t = type(self)(self.fname, self.rettype, self.counter)
         t.env, t.owned = dict(self.env), set(self.owned)
         return t
 
@@ -369,7 +372,10 @@ class FnTr(object):
                 for x in t.elts:
                     target(x)
             elif isinstance(t, ast.Subscript) and isinstance(t.value, ast.Name):
-                add(t.value.id)
+                if self.env.get(t.value.id) != "listobj":      # (the caller's list object lives in the state)
+                    add(t.value.id)
+            elif isinstance(t, ast.Attribute):
+                pass        # an attribute store binds no local (whether it is in the grammar is decided where it is translated)
             else:
                 refuse(t, "assignment target")
         for s in stmts:
@@ -709,7 +715,10 @@ class FnTr(object):
         state = self.tup(vs)
         bsc = Scope(ret=False, fall=lambda tr: "ret %s" % state)
         pre = ""
-        if prelude:
+        if prelude and prelude[0] == "lazy":
+            _, y, src = prelude
+            pre = "  " * (ind + 2) + "%s <- l_evaluate evaluate %s ;;\n" % (cn(y), src)
+        elif prelude:
             x, l, i = prelude
             pre = "  " * (ind + 2) + "%s <- m_get %s %s ;;\n" % (cn(x), cn(l), cn(i))
         body = pre + b.block(list(s.body), bsc, ind + 2)
@@ -723,6 +732,326 @@ class FnTr(object):
                 self.owned.discard(v)
         m = "for_each %s (fun %s %s =>\n%s) %s" % (lst, binder, self.pat(vs), body, state)
         return pad + "%s <- %s ;;\n" % (self.pat(vs) if vs else self.temp(), m) + self.block(rest, sc, ind)
+
+
+# ---- the loops dialect: eaSimple / eaMuPlusLambda / eaMuCommaLambda ---------------------------------------------
+# Parameter types (trusted): `population` is the caller's list object (its contents live in the state: every read is
+# l_pop, `population[:] = e` is l_setpop); `stats` and `halloffame` are GIVEN (a Statistics object, which is truthy, and
+# a HallOfFame: `stats`, `stats is not None`, `halloffame is not None` are true) and `verbose` is false: the regenerated
+# loops are the specialisation of the source to these calls, as the hand model of Model/C03_Full.v is.
+LOOP_PARAM_TYPES = {"population": "listobj", "toolbox": "toolbox", "cxpb": "T", "mutpb": "T", "lambda_": "Z", "mu": "Z",
+                    "ngen": "Z", "stats": "stats", "halloffame": "hof", "verbose": "verbose"}
+LOOP_FUNCS = [
+    ("eaSimple", ["population", "toolbox", "cxpb", "mutpb", "ngen", "stats", "halloffame", "verbose"],
+     "fun s => model_simple evaluate fle mate_o mut_o ltb v_cxpb v_mutpb s"),
+    ("eaMuPlusLambda", ["population", "toolbox", "mu", "lambda_", "cxpb", "mutpb", "ngen", "stats", "halloffame", "verbose"],
+     "fun s => model_plus evaluate fle mate_o mut_o ltb leb add one v_lambda_ v_cxpb v_mutpb s"),
+    ("eaMuCommaLambda", ["population", "toolbox", "mu", "lambda_", "cxpb", "mutpb", "ngen", "stats", "halloffame", "verbose"],
+     "fun s => model_comma evaluate fle mate_o mut_o ltb leb add one v_mu v_lambda_ v_cxpb v_mutpb s"),
+]
+LOOP_EXPECTED = {"random": ("import", None, "random"), "tools": ("from", None, "tools")}
+LOOP_ENV = "{G F T : Type} (evaluate : G -> F) (fle : F -> F -> bool) (ltb leb : T -> T -> bool) (add : T -> T -> T) " \
+           "(one : T) (mate_o : nat -> G * option F -> G * option F -> V.mate_ans G F) " \
+           "(mut_o : nat -> G * option F -> V.mut_ans G F)"
+VAR_CALLS = {"varAnd": (["refs", "toolbox", "T", "T"], "C02_gen.gen_varAnd ltb leb add one mo uo %s %s %s"),
+             "varOr": (["refs", "toolbox", "Z", "T", "T"], "C02_gen.gen_varOr ltb leb add one mo uo %s %s %s %s")}
+
+
+class LoopTr(FnTr):
+    top = {}
+
+    def static_truth(self, test):
+        """conditions decided by the signature table: None when the test is an ordinary expression"""
+        if isinstance(test, ast.Name):
+            t = self.env.get(test.id)
+            if t == "stats":
+                return True
+            if t == "verbose":
+                return False
+        if isinstance(test, ast.Compare) and len(test.ops) == 1 and isinstance(test.left, ast.Name) \
+                and isinstance(test.comparators[0], ast.Constant) and test.comparators[0].value is None \
+                and self.env.get(test.left.id) in ("stats", "hof"):
+            if isinstance(test.ops[0], ast.IsNot):
+                return True
+            if isinstance(test.ops[0], ast.Is):
+                return False
+        return None
+
+    def is_obj(self, e, ty):
+        return isinstance(e, ast.Name) and self.env.get(e.id) == ty
+
+    def expr(self, e, binds):
+        if isinstance(e, ast.Name) and isinstance(e.ctx, ast.Load) and self.env.get(e.id) == "listobj":
+            t = self.temp()
+            binds.append((t, "l_pop"))          # the contents of the caller's list object, now
+            return t, "refs", False
+        if isinstance(e, ast.Name) and self.env.get(e.id) in ("stats", "hof", "verbose", "logbook"):
+            refuse(e, "%s used as a value" % e.id)
+        if isinstance(e, ast.IfExp):
+            st = self.static_truth(e.test)
+            if st is not None:
+                return self.expr(e.body if st else e.orelse, binds)
+        if isinstance(e, ast.ListComp):
+            g = e.generators[0] if len(e.generators) == 1 else None
+            if g is not None and len(g.ifs) == 1 and not g.is_async and isinstance(g.target, ast.Name) \
+                    and isinstance(e.elt, ast.Name) and e.elt.id == g.target.id:
+                c = g.ifs[0]
+                if isinstance(c, ast.UnaryOp) and isinstance(c.op, ast.Not) and isinstance(c.operand, ast.Attribute) \
+                        and c.operand.attr == "valid" and isinstance(c.operand.value, ast.Attribute) \
+                        and c.operand.value.attr == "fitness" and isinstance(c.operand.value.value, ast.Name) \
+                        and c.operand.value.value.id == g.target.id:
+                    l, tl, _ = self.expr(g.iter, binds)
+                    if tl != "refs":
+                        refuse(g.iter, "comprehension over %s" % tl)
+                    t = self.temp()
+                    binds.append((t, "l_invalid %s" % l))
+                    return t, "refs", True
+            refuse(e, "comprehension form (loops)")
+        return FnTr.expr(self, e, binds)
+
+    def call(self, e, binds):
+        f = e.func
+        if self.toolbox_attr(f):
+            if f.attr == "select" and len(e.args) == 2 and not e.keywords:
+                l, tl, _ = self.expr(e.args[0], binds)
+                k, tk, _ = self.expr(e.args[1], binds)
+                if tl != "refs" or tk != "Z":
+                    refuse(e, "toolbox.select(%s, %s)" % (tl, tk))
+                t = self.temp()
+                binds.append((t, "l_select %s %s" % (l, k)))
+                return t, "refs", False
+            if f.attr == "map" and len(e.args) == 2 and not e.keywords and self.toolbox_attr(e.args[0]) \
+                    and e.args[0].attr == "evaluate":
+                l, tl, _ = self.expr(e.args[1], binds)
+                if tl != "refs":
+                    refuse(e, "toolbox.map over %s" % tl)
+                t = self.temp()
+                binds.append((t, "l_map_evaluate %s" % l))
+                return t, "lazyfits", False
+            refuse(e, "toolbox.%s in a loop function" % f.attr)
+        if isinstance(f, ast.Name) and f.id in VAR_CALLS and f.id not in self.env and not e.keywords:
+            d = self.top.get(f.id, [])
+            if len(d) != 1 or d[0][0] != "def":
+                refuse(e, "%s is not the module-level function" % f.id)
+            tys, fmt = VAR_CALLS[f.id]
+            if len(e.args) != len(tys):
+                refuse(e, "%s with %d arguments" % (f.id, len(e.args)))
+            vals = []
+            for a, ty in zip(e.args, tys):
+                if ty == "toolbox":
+                    if not self.is_obj(a, "toolbox"):
+                        refuse(a, "toolbox argument")
+                    continue
+                v, t, _ = self.expr(a, binds)
+                if t != ty:
+                    refuse(a, "argument of type %s, expected %s" % (t, ty))
+                vals.append(v)
+            t = self.temp()
+            binds.append((t, "l_call_var mate_o mut_o (fun mo uo => %s)" % (fmt % tuple(vals))))
+            return t, "refs", True
+        if isinstance(f, ast.Attribute) and self.is_obj(f.value, "stats") and f.attr == "compile" \
+                and len(e.args) == 1 and not e.keywords:
+            l, tl, _ = self.expr(e.args[0], binds)
+            if tl != "refs":
+                refuse(e, "stats.compile of %s" % tl)
+            t = self.temp()
+            binds.append((t, "l_compile %s" % l))
+            return t, "srec", False
+        if isinstance(f, ast.Attribute) and isinstance(f.value, ast.Name) and f.value.id == "tools" \
+                and "tools" not in self.env and f.attr == "Logbook" and not e.args and not e.keywords:
+            t = self.temp()
+            binds.append((t, "l_new_logbook"))
+            return t, "logbook", False
+        if self.toolbox_attr(f) or self.random_attr(f):
+            refuse(e, "call outside the grammar of the loops")
+        return FnTr.call(self, e, binds)
+
+    @staticmethod
+    def unobserved(e):
+        """an expression without effects whose value the model does not observe (logbook.header)"""
+        for n in ast.walk(e):
+            if not isinstance(n, (ast.Constant, ast.List, ast.BinOp, ast.Add, ast.IfExp, ast.Name, ast.Attribute,
+                                  ast.Compare, ast.Is, ast.IsNot, ast.Load)):
+                return False
+            if isinstance(n, ast.Name) and n.id != "stats":
+                return False
+            if isinstance(n, ast.Attribute) and not (isinstance(n.value, ast.Name) and n.attr == "fields"):
+                return False
+        return True
+
+    def iterable(self, s, body_assigned):
+        it, target = s.iter, s.target
+        if isinstance(it, ast.Call) and isinstance(it.func, ast.Name) and it.func.id == "zip" and "zip" not in self.env \
+                and not it.keywords and len(it.args) == 2 and isinstance(it.args[1], ast.Name) \
+                and self.env.get(it.args[1].id) == "lazyfits":
+            if not (isinstance(target, ast.Tuple) and len(target.elts) == 2 and all(isinstance(x, ast.Name) for x in target.elts)
+                    and isinstance(it.args[0], ast.Name) and self.env.get(it.args[0].id) == "refs"):
+                refuse(s, "zip form")
+            x, y = target.elts[0].id, target.elts[1].id
+            a, b = it.args[0].id, it.args[1].id
+            if x == y or a in body_assigned or b in body_assigned:
+                refuse(s, "the loop changes a list it iterates over")
+            src = self.temp()
+            # zip pulls an individual, then the next fitness: toolbox.evaluate is called at that moment (map is lazy)
+            return "(zip %s %s)" % (cn(a), cn(b)), "'(%s, %s)" % (cn(x), src), {x: "ref", y: "fitval"}, ("lazy", y, src)
+        return FnTr.iterable(self, s, body_assigned)
+
+    def block(self, stmts, sc, ind):
+        pad = "  " * ind
+        if not stmts:
+            return FnTr.block(self, stmts, sc, ind)
+        s, rest = stmts[0], list(stmts[1:])
+        if isinstance(s, ast.If):
+            st = self.static_truth(s.test)
+            if st is not None:
+                return self.block(list(s.body if st else s.orelse) + rest, sc, ind)
+        if isinstance(s, ast.Return):
+            if rest:
+                refuse(rest[0], "unreachable statement")
+            v = s.value
+            if not (sc.ret and isinstance(v, ast.Tuple) and len(v.elts) == 2 and self.is_obj(v.elts[0], "listobj")
+                    and self.is_obj(v.elts[1], "logbook")):
+                refuse(s, "return form (expected: return population, logbook)")
+            return pad + "ret tt"
+        if isinstance(s, ast.Assign) and len(s.targets) == 1:
+            t = s.targets[0]
+            if isinstance(t, ast.Attribute) and t.attr == "header" and self.is_obj(t.value, "logbook"):
+                if not self.unobserved(s.value):
+                    refuse(s, "logbook.header expression")
+                return self.block(rest, sc, ind)
+            if isinstance(t, ast.Attribute) and t.attr == "values" and isinstance(t.value, ast.Attribute) \
+                    and t.value.attr == "fitness":
+                binds = []
+                v, tv, _ = self.expr(s.value, binds)
+                u, tu, _ = self.expr(t.value.value, binds)
+                if tv != "fitval" or tu != "ref":
+                    refuse(s, "%s.fitness.values = %s" % (tu, tv))
+                return self.emit(binds, pad) + pad + "%s <- l_setfit %s %s ;;\n" % (self.temp(), u, v) + self.block(rest, sc, ind)
+            if isinstance(t, ast.Subscript) and self.is_obj(t.value, "listobj") and isinstance(t.slice, ast.Slice) \
+                    and t.slice.lower is None and t.slice.upper is None and t.slice.step is None:
+                binds = []
+                v, tv, _ = self.expr(s.value, binds)
+                if tv != "refs":
+                    refuse(s, "population[:] = %s" % tv)
+                return self.emit(binds, pad) + pad + "%s <- l_setpop %s ;;\n" % (self.temp(), v) + self.block(rest, sc, ind)
+            if isinstance(t, ast.Name) and isinstance(s.value, ast.Name) and self.env.get(s.value.id) == "listobj":
+                refuse(s, "a second name for the caller's list object")
+        if isinstance(s, ast.Expr) and isinstance(s.value, ast.Call) and isinstance(s.value.func, ast.Attribute):
+            c, f = s.value, s.value.func
+            if self.is_obj(f.value, "hof") and f.attr == "update" and len(c.args) == 1 and not c.keywords:
+                binds = []
+                l, tl, _ = self.expr(c.args[0], binds)
+                if tl != "refs":
+                    refuse(s, "halloffame.update of %s" % tl)
+                return self.emit(binds, pad) + pad + "%s <- l_hof_update fle %s ;;\n" % (self.temp(), l) + self.block(rest, sc, ind)
+            if self.is_obj(f.value, "logbook") and f.attr == "record" and not c.args:
+                kw = {k.arg: k.value for k in c.keywords}
+                if len(c.keywords) != 3 or set(kw) != {"gen", "nevals", None}:
+                    refuse(s, "logbook.record form (expected gen=, nevals=, **record)")
+                binds = []
+                vals = []
+                for k in c.keywords:       # evaluated in source order
+                    v, tv, _ = self.expr(k.value, binds)
+                    if tv != ("srec" if k.arg is None else "Z"):
+                        refuse(s, "logbook.record argument %s of type %s" % (k.arg, tv))
+                    vals.append((k.arg, v))
+                d = dict(vals)
+                return self.emit(binds, pad) + pad + "%s <- l_record %s %s %s ;;\n" % (self.temp(), d["gen"], d["nevals"], d[None]) + \
+                    self.block(rest, sc, ind)
+        return FnTr.block(self, stmts, sc, ind)
+
+
+def check_loop_function(fn, top, params):
+    a = fn.args
+    if fn.decorator_list or a.posonlyargs or a.kwonlyargs or a.kw_defaults or a.vararg or a.kwarg or fn.returns:
+        refuse(fn, "function header")
+    if [x.arg for x in a.args] != params:
+        refuse(fn, "parameters %r, expected %r" % ([x.arg for x in a.args], params))
+    d = a.defaults
+    if not (len(d) == 3 and isinstance(d[0], ast.Constant) and d[0].value is None and isinstance(d[1], ast.Constant)
+            and d[1].value is None and isinstance(d[2], ast.Name) and d[2].id == "__debug__"):
+        refuse(fn, "default values (expected stats=None, halloffame=None, verbose=__debug__)")
+    saved = a.defaults
+    a.defaults = []
+    try:
+        check_function(fn, top, params)
+    finally:
+        a.defaults = saved
+
+
+def loop_signature(params):
+    return " ".join("(%s : %s)" % (cn(p), COQ_TYPES[LOOP_PARAM_TYPES[p]]) for p in params
+                    if LOOP_PARAM_TYPES[p] in ("T", "Z"))
+
+
+LOOP_HEADER = """(* GENERATED by harness/c02_py2coq.py from %s -- do not edit, never committed *)
+From Coq Require Import List ZArith Bool Arith.
+From DV Require Model.C02_Variation.
+From DV Require Import Base.PyList Model.C02_GenRt Model.C03_Loops Model.C03_Full Model.C02_GenLoopsRt.
+From DV Require Gen.C02_gen.
+Import ListNotations.
+Local Open Scope list_scope.
+Local Open Scope Z_scope.
+Local Open Scope c02m_scope.
+
+"""
+
+
+def translate_loops_source(source, origin="deap/algorithms.py"):
+    """source text -> (Gallina text of coq/Gen/C02_gen_loops.v, {function: None | Refuse})"""
+    global EXPECTED
+    wanted = [f[0] for f in LOOP_FUNCS]
+    status, defs, top = {}, {}, {}
+    saved = EXPECTED
+    EXPECTED = LOOP_EXPECTED
+    try:
+        try:
+            tree = ast.parse(source)
+            top, defs = check_module(tree, wanted + [f[0] for f in FUNCS])
+        except (SyntaxError, ValueError, RecursionError, MemoryError) as e:
+            for w in wanted:
+                defs[w] = Refuse("Module", "source does not parse: %s" % e)
+        except Refuse as r:
+            for w in wanted:
+                defs[w] = r
+        out = LOOP_HEADER % origin
+        for name, params, model in LOOP_FUNCS:
+            sig = loop_signature(params)
+            try:
+                if isinstance(defs[name], Refuse):
+                    raise defs[name]
+                check_loop_function(defs[name], top, params)
+                tr = LoopTr(name, "unit")
+                tr.top = top
+                LoopTr.top = top
+                for p_ in params:
+                    tr.env[p_] = LOOP_PARAM_TYPES[p_]
+                body = tr.block(list(defs[name].body), Scope(ret=True), 1)
+                text = "Definition gen_%s %s %s : M (@lstate G F T) unit :=\n%s.\n" % (name, LOOP_ENV, sig, body)
+                status[name] = None
+            except Refuse as r:
+                status[name] = r
+                text = None
+            except Exception as e:  # noqa  (fail closed)
+                status[name] = Refuse("FunctionDef", "translator error %s: %s" % (type(e).__name__, e))
+                text = None
+            if text is None:
+                text = "(* REFUSED %s: %s -- placeholder: the hand model, tied by the correspondence only *)\n" \
+                       "Definition gen_%s %s %s : M (@lstate G F T) unit :=\n  %s.\n" % (
+                           name, str(status[name]).replace("*)", "* )").replace("(*", "( *"), name, LOOP_ENV, sig, model)
+            out += text + "\n"
+    finally:
+        EXPECTED = saved
+    return out, status
+
+
+def translate_loops_repo(repo):
+    path = os.path.join(repo, *FILE)
+    try:
+        src = open(path).read()
+    except (OSError, UnicodeDecodeError) as e:
+        src = "\x00 unreadable: %s" % e
+    return translate_loops_source(src, path)
 
 
 # ---- module level ---------------------------------------------------------------------------------------
@@ -873,7 +1202,11 @@ def translate_repo(repo):
 
 if __name__ == "__main__":
     import sys
-    txt, st = translate_repo(sys.argv[1] if len(sys.argv) > 1 else "/repo")
-    print(txt)
+    repo_ = sys.argv[1] if len(sys.argv) > 1 else "/repo"
+    if len(sys.argv) > 2 and sys.argv[2] == "loops":
+        txt, st = translate_loops_repo(repo_)
+    else:
+        txt, st = translate_repo(repo_)
+    sys.stdout.write(txt)
     for k, v in st.items():
         sys.stderr.write("%s: %s\n" % (k, "translated" if v is None else "REFUSED %s" % v))
